@@ -133,16 +133,24 @@ func TestVerifReplay(t *testing.T) {
 	for !hung && pan == "" && len(verifrt.Failures) == 0 && time.Now().Before(deadline) {
 		verifrt.Reset()
 		iters++
-		func() {
+		again := make(chan string, 1)
+		go func() {
 			defer func() {
 				if r := recover(); r != nil {
 					if _, ok := r.(verifrt.ReplayEnd); !ok {
-						pan = fmt.Sprintf("panic: %%v", r)
+						again <- fmt.Sprintf("panic: %%v", r)
+						return
 					}
 				}
+				again <- ""
 			}()
 			%s()
 		}()
+		select {
+		case pan = <-again:
+		case <-time.After(3 * time.Second):
+			hung = true
+		}
 	}
 	fmt.Printf("VERIF-REPLAY failures=%%q invalid=%%q panic=%%q hung=%%v iterations=%%d\n", verifrt.Failures, verifrt.Invalid, pan, hung, iters)
 }
@@ -197,7 +205,7 @@ func TestVerifReplay(t *testing.T) {
 }
 
 func stressSeconds(v *Violation) int {
-	if schedDependent(v) && v.Site != "nodeadlock" && v.Site != "nopanic" {
+	if schedDependent(v) && v.Site != "nopanic" {
 		return 40
 	}
 	return 0
